@@ -29,26 +29,38 @@ def namesDistinct (ds : DescSet) : Bool :=
     (m.oneofs.all fun o => (ds.msg? (m.full ++ "." ++ o.name)).isNone) &&
     decide ((m.fields.map (·.number)).Nodup)
 
+/-- a schema name (`splitDescriptorName`: proto identifiers joined by `_`) contains no dot -/
+def dotFree (s : String) : Bool := !s.toList.contains '.'
+
+def splitsDotFree (ds : DescSet) : Bool :=
+  (ds.msgs.all fun m => dotFree m.split && m.oneofs.all fun o => dotFree o.split) &&
+  ds.enums.all fun en => dotFree en.split
+
 /-- what `protodesc` guarantees about a descriptor set (trusted; evaluated by the driver on every
 generated set: the harness answers `linked=1` for every set that links) -/
-def linked (ds : DescSet) : Bool := linkedBase ds && namesDistinct ds
+def linked (ds : DescSet) : Bool := linkedBase ds && namesDistinct ds && splitsDotFree ds
 
 theorem linked_base {ds : DescSet} (h : linked ds = true) : linkedBase ds = true := by
   unfold linked at h
   simp only [Bool.and_eq_true] at h
-  exact h.1
+  exact h.1.1
+
+theorem linked_splits {ds : DescSet} (h : linked ds = true) : splitsDotFree ds = true := by
+  unfold linked at h
+  simp only [Bool.and_eq_true] at h
+  exact h.2
 
 theorem linked_oneofName {ds : DescSet} (h : linked ds = true) (m : Msg) (hm : m ∈ ds.msgs)
     (o : OneofD) (ho : o ∈ m.oneofs) : ds.msg? (m.full ++ "." ++ o.name) = none := by
   unfold linked namesDistinct at h
   simp only [Bool.and_eq_true, List.all_eq_true, Option.isNone_iff_eq_none] at h
-  exact (h.2 m hm).1 o ho
+  exact (h.1.2 m hm).1 o ho
 
 theorem linked_numbers {ds : DescSet} (h : linked ds = true) (m : Msg) (hm : m ∈ ds.msgs) :
     (m.fields.map (·.number)).Nodup := by
   unfold linked namesDistinct at h
   simp only [Bool.and_eq_true, List.all_eq_true, decide_eq_true_eq] at h
-  exact (h.2 m hm).2
+  exact (h.1.2 m hm).2
 
 /-! ## canonical messages -/
 
@@ -72,15 +84,6 @@ def itemOf : RField → RField
   | .array i => i
   | .map i => i
   | s => s
-
-/-- the descriptor the element of the field refers to -/
-def itemTarget (f : FieldD) : Target :=
-  match f.card with
-  | .map =>
-    match f.mapVal with
-    | some (_, vt, _) => vt
-    | none => .none
-  | _ => f.target
 
 /-- the schema name a message-kind field schema refers to -/
 def refOf : RField → Option Ref
@@ -124,7 +127,7 @@ theorem PropLink.mono {ds : DescSet} {reg reg' : Reg} (hx : RegExt reg reg') {m 
 
 /-- the root registered under (p, k) for descriptor `src` -/
 def RootLink (ds : DescSet) (reg : Reg) (p k src : String) : RRoot → Prop
-  | .enum _ _ _ _ => srcIsEnum ds src = true
+  | .enum _ _ _ _ => srcIsEnum ds src = true ∧ ∃ en ∈ ds.enums, k = en.split
   | .object _ _ _ _ ps =>
     ∃ m, Canon ds m ∧ src = m.full ∧ isOneofWrapper m = false ∧ p = m.pkg ∧ k = m.split ∧
       (∀ prop ∈ ps, PropLink ds reg m prop) ∧ (ps.map (·.json)).Nodup
@@ -724,7 +727,7 @@ theorem step_links (ds : DescSet) (st : St) (hg : Good ds st) (hk : Links ds st)
               have : ∃ a b c d, r = RRoot.enum a b c d := by
                 cases r <;> simp_all [enumRoot]
               obtain ⟨a, b', c, d, rfl⟩ := this
-              exact srcIsEnum_of_mem ds en hen
+              exact ⟨srcIsEnum_of_mem ds en hen, en, hen, rfl⟩
             · rw [hops] at hop
               simp only [List.mem_singleton] at hop
               subst hop
@@ -916,9 +919,9 @@ theorem objRef_resolves (ds : DescSet) (hl : linked ds = true) (reg : Reg) (hs :
     cases root with
     | enum _ _ _ _ =>
       have := (linked_names ds (linked_base hl) m' hm'.mem).1
-      simp only [RootLink] at hroot
-      rw [this] at hroot
-      cases hroot
+      have h1 := hroot.1
+      rw [this] at h1
+      cases h1
     | object p k en am ps =>
       obtain ⟨m, hc, hfull, _, hp, hk, hprops, hnd⟩ := hroot
       have hmm : m = m' := by
@@ -1079,7 +1082,7 @@ theorem enumsLoop_settled (ds : DescSet) (names : List String) (reg : Reg) (hs :
             have := buildEnum_enumRoot en r hb
             cases r <;> simp_all [enumRoot]
           obtain ⟨a, b, c, d, rfl⟩ := hr
-          refine ⟨hregOK.apply _ (Or.inr rfl), hlinks.apply hregOK.1 _ (srcIsEnum_of_mem ds en (enum?_mem ds full en hen)), ?_⟩
+          refine ⟨hregOK.apply _ (Or.inr rfl), hlinks.apply hregOK.1 _ ⟨srcIsEnum_of_mem ds en (enum?_mem ds full en hen), en, enum?_mem ds full en hen, rfl⟩, ?_⟩
           intro e he hn
           obtain ⟨e0, he0, hn0, _, _⟩ := apply_none_of (by intro p k s hh; cases hh) e he hn
           exact hall e0 he0 hn0
